@@ -59,6 +59,8 @@ def run(rep, scratch, tier, seed, replay=None):
         if b.startswith("ACCEPT"):
             acc += 1
             distinct.add(b)
+        if a.startswith("SKIPPED"):
+            continue
         leak = " LEAK" in a
         a0 = a.split(" LEAK")[0]
         if a0 != b:
